@@ -6,6 +6,7 @@ import (
 	"os"
 	"path/filepath"
 	"sort"
+	"strings"
 	"sync/atomic"
 	"time"
 
@@ -203,6 +204,69 @@ func report(verifDir, prop, tier string, seed int64, t0 time.Time, loadS float64
 		code = 2
 		verdict = "inconclusive"
 	}
+	// Validation of the encoding against the real code: for natively replayable harnesses the solver's reach witnesses
+	// (concrete inputs that drive the harness to each of its reach points) are run through the natively compiled harness;
+	// every obligation the encoding discharged must hold there too. A failure is a concrete input on which the real code
+	// breaks an obligation although the encoding said it could not - reported as a violation (with that input).
+	witnessRuns, witnessFailed := 0, 0
+	knownIDs := known // findings listed with status "known" for this property
+	if code != 1 && os.Getenv("VERIF_NO_WITNESS_REPLAY") == "" {
+		for i, ex := range results {
+			h := entries[i].Name()
+			if !contains(cc.Replayable, h) {
+				continue
+			}
+			var ids []string
+			for id := range ex.reachCex {
+				ids = append(ids, id)
+			}
+			sort.Strings(ids)
+			if len(ids) > 2 {
+				ids = ids[:2]
+			}
+			for _, id := range ids {
+				c := ex.reachCex[id]
+				if c.Extra == nil {
+					c.Extra = map[string]string{}
+				}
+				os.MkdirAll(replayDir, 0o755)
+				path := filepath.Join(replayDir, "witness-"+sanitize(h+"-"+id)+".json")
+				bz, _ := json.MarshalIndent(c, "", " ")
+				os.WriteFile(path, bz, 0o644)
+				r := replayer(path)
+				if !r.Supported || !r.AssumptionsHeld {
+					os.Remove(path)
+					continue
+				}
+				witnessRuns++
+				if len(r.Failed) > 0 || r.Panicked != "" {
+					isKnown := false
+					for _, n := range r.Notes {
+						// the native run is inside the predicate of a finding listed in known_findings.json
+						if strings.HasPrefix(n, "known-finding-predicate-holds: ") {
+							if _, listed := knownIDs[strings.TrimPrefix(n, "known-finding-predicate-holds: ")]; listed {
+								isKnown = true
+							}
+						}
+					}
+					if isKnown {
+						os.Remove(path)
+						continue
+					}
+					witnessFailed++
+					c.Extra["native_run"] = fmt.Sprintf("failed=%v panicked=%q", r.Failed, r.Panicked)
+					bz, _ = json.MarshalIndent(c, "", " ")
+					os.WriteFile(path, bz, 0o644)
+					violLines = append(violLines, fmt.Sprintf("VIOLATION property=%s replay=%s", prop, path))
+					samples = append(samples, map[string]interface{}{"violation": fmt.Sprintf("native run of a solver witness fails %v %s", r.Failed, r.Panicked), "harness": h, "inputs": compactVals(c.Values)})
+					code = 1
+					verdict = "violated"
+				} else {
+					os.Remove(path)
+				}
+			}
+		}
+	}
 	var knownLines []string
 	var ks []string
 	for k := range knownSeen {
@@ -243,31 +307,33 @@ func report(verifDir, prop, tier string, seed int64, t0 time.Time, loadS float64
 		transitions = 1
 	}
 	ev.Coverage = map[string]interface{}{
-		"states":                        states,
-		"transitions":                   transitions,
-		"traces_validated_against_impl": replays,
-		"native_replays_confirmed":      replaysConfirmed,
-		"samples":                       samples,
-		"verdict":                       verdict,
-		"paths":                         paths,
-		"obligations":                   obligations,
-		"discharged":                    discharged,
-		"queries":                       atomic.LoadInt64(&totalQueries),
-		"solver_time_s":                 float64(atomic.LoadInt64(&totalSolverNs)) / 1e9,
-		"load_time_s":                   loadS,
-		"solver":                        "z3 4.8.12 (z3 -in), incremental push/pop",
-		"functions_encoded":             fes,
-		"library_models_used":           keysOf(modelsUsed),
-		"harness_overrides":             keysOf(overrides),
-		"auto_opaque_calls":             keysOf(autos),
-		"bounds":                        cc.Bounds,
-		"outside_claim":                 cc.Outside,
-		"harnesses":                     perEntry,
-		"inconclusive":                  inconclusive,
-		"known_findings_seen":           ks,
-		"target_panics_seen":            panics,
-		"states_meaning":                "symbolic path states created (paths + fork points)",
-		"transitions_meaning":           "SSA basic blocks executed symbolically",
+		"states":                            states,
+		"transitions":                       transitions,
+		"traces_validated_against_impl":     replays + witnessRuns,
+		"native_replays_confirmed":          replaysConfirmed,
+		"solver_witnesses_run_natively":     witnessRuns,
+		"solver_witnesses_failing_natively": witnessFailed,
+		"samples":                           samples,
+		"verdict":                           verdict,
+		"paths":                             paths,
+		"obligations":                       obligations,
+		"discharged":                        discharged,
+		"queries":                           atomic.LoadInt64(&totalQueries),
+		"solver_time_s":                     float64(atomic.LoadInt64(&totalSolverNs)) / 1e9,
+		"load_time_s":                       loadS,
+		"solver":                            "z3 4.8.12 (z3 -in), incremental push/pop",
+		"functions_encoded":                 fes,
+		"library_models_used":               keysOf(modelsUsed),
+		"harness_overrides":                 keysOf(overrides),
+		"auto_opaque_calls":                 keysOf(autos),
+		"bounds":                            cc.Bounds,
+		"outside_claim":                     cc.Outside,
+		"harnesses":                         perEntry,
+		"inconclusive":                      inconclusive,
+		"known_findings_seen":               ks,
+		"target_panics_seen":                panics,
+		"states_meaning":                    "symbolic path states created (paths + fork points)",
+		"transitions_meaning":               "SSA basic blocks executed symbolically",
 	}
 	for k, v := range extraCoverage {
 		ev.Coverage[k] = v
